@@ -107,19 +107,57 @@ def run(ctx):
                     disagreements.append({'input': {'entry': entry, 'text': t, 'kind': kind}, 'impl': dumped[:300], 'model': md[:300]})
             elif mcls == 'internal':
                 disagreements.append({'input': {'entry': entry, 'text': t, 'kind': kind}, 'impl': cls, 'model': 'internal:' + str(x[2])})
-    # statelessness: histories on one parser object vs fresh parsers
+    # statelessness: histories on one parser object vs fresh parsers; every history also revisits earlier texts verbatim and
+    # as near-variants (other whitespace between tokens, other whitespace inside string literals, exotic space characters,
+    # one-token edits), which is what any result cache or leftover lexer/transformer state would confuse
+    def variant(t):
+        k = rng.random()
+        sp = [i for i, ch in enumerate(t) if ch == ' ']
+        if k < 0.15:
+            return t
+        if k < 0.4 and sp:
+            i = rng.choice(sp)
+            return t[:i] + rng.choice(['\u00a0', '\u2028', '\x0b', '\x1f', '\x0c', '\t', '\r\n', '  ', '\u3000', '\x85']) + t[i + 1:]
+        if k < 0.65 and '"' in t:
+            a = t.index('"')
+            b = t.find('"', a + 1)
+            if b > a:
+                inner = t[a + 1:b]
+                inner2 = rng.choice([inner.replace(' ', '  '), inner.replace(' ', '\t'), inner + ' ', ' ' + inner, inner.replace(' ', '\n'), inner.upper(), inner.replace(' ', '')])
+                return t[:a + 1] + inner2 + t[b:]
+        if k < 0.8:
+            return mutate(t, rng, 1)
+        if k < 0.9:
+            return relayout(t, rng)
+        return t + rng.choice([' ', '\n', '\u00a0', ' x', ')'])
+
     histories = 0
-    n_hist = 12 if ctx.quick else 150
+    fresh_cache = {}
+    n_hist = 40 if ctx.quick else 400
     for _ in range(n_hist):
         entry = rng.choice(['expression', 'predicate', 'property', 'specification'])
-        pool = [t for e, t, k in texts if e == entry]
+        base_entry = {'specification': 'property'}.get(entry, entry)
+        pool = [t for e, t, k in texts if e == entry] + valid[base_entry]
         if len(pool) < 4:
             continue
-        hist = [rng.choice(pool) for _ in range(rng.randrange(4, 10))]
+        hist = []
+        for _ in range(rng.randrange(3, 7)):
+            t = rng.choice(valid[base_entry]) if rng.random() < 0.7 else rng.choice(pool)
+            hist.append(t)
+            for _ in range(rng.randrange(0, 3)):
+                hist.append(variant(rng.choice(hist)))
         shared = makers[entry]()
         for i, t in enumerate(hist):
             got = outcome(shared, t)
-            fresh = outcome(makers[entry](), t)
+            # reference: a never-used parser (1 call in 4), otherwise a second parser object with an unrelated history; a
+            # difference from the latter is confirmed against a never-used parser before it is reported
+            if (entry, t) not in fresh_cache:
+                if rng.random() < 0.25:
+                    fresh_cache[(entry, t)] = outcome(makers[entry](), t)
+                else:
+                    ref = outcome(parsers[entry], t)
+                    fresh_cache[(entry, t)] = ref if ref == got else outcome(makers[entry](), t)
+            fresh = fresh_cache[(entry, t)]
             histories += 1
             if got != fresh:
                 violations.append({'input': {'entry': entry, 'history': hist[:i + 1]}, 'impl': [got[0], fresh[0]],
@@ -131,7 +169,7 @@ def run(ctx):
         'distinct_nontrivial': len(set(t for _, t, _ in texts)),
         'rule': 'five entry points x {arbitrary Unicode (BOM, NBSP, zero-width, emoji, control characters, non-ASCII digits), random HPL token '
                 'sequences, one or two token edits of valid texts with an optional stray Unicode character, valid texts, nesting depth 5/10/12}; '
-                f'{n_hist} histories of 4..9 texts on one parser object compared call by call with fresh parsers.',
+                f'{n_hist} histories of 3..18 texts on one parser object (valid texts, invalid texts, and verbatim repeats / near-variants of earlier texts: other whitespace between tokens or inside string literals, exotic space characters, one-token edits) compared call by call with fresh parsers.',
         'samples': samples,
         'violations': violations,
         'disagreements': disagreements,
